@@ -392,11 +392,14 @@ def _call_backend(backend: Callable[[Any], TRes], arg: Any, n_threads: int = 1) 
         pass
 
     if threadpool_limits is not None:
-        # Caps any pools entered/created within the context
-        with contextlib.suppress(Exception), threadpool_limits(limits=n_threads):
+        # Caps any pools entered/created within the context. Only a failure to set the limits is ignored;
+        # an exception raised by the backend itself propagates to the caller.
+        with contextlib.ExitStack() as stack:
+            with contextlib.suppress(Exception):
+                stack.enter_context(threadpool_limits(limits=n_threads))
             return backend(arg)
 
-    # If threadpoolctl fails or is missing, fallback to direct call
+    # If threadpoolctl is missing, fallback to direct call
     return backend(arg)
 
 
